@@ -5,6 +5,7 @@ import (
 	"flag"
 	"fmt"
 	"os"
+	"runtime"
 	"strings"
 	"sync"
 	"time"
@@ -29,9 +30,14 @@ type pairCase struct {
 	Cnt2    int  `json:"cnt2"`
 	NHeap   int  `json:"nheap"`
 	FinM1   bool `json:"fin_m1"`
+	DiskM1  bool `json:"disk_m1"`
+	DiskM2  bool `json:"disk_m2"`
 }
 
 type pairObs struct {
+	BackM1    bool     `json:"back_m1"`
+	BackM2    bool     `json:"back_m2"`
+	Restarted bool     `json:"restarted"`
 	Case      pairCase `json:"case"`
 	Done      bool     `json:"done"`
 	Blocked   string   `json:"blocked,omitempty"`
@@ -171,6 +177,13 @@ func replayPair(pc pairCase, dir string) *pairObs {
 				delete(cmdDone, key)
 			}
 			sinkMu.Unlock()
+		case "CClosed":
+			sinkMu.Lock()
+			if ch, ok := cmdDone["closed|"+hlib.KVStr(e, "c")]; ok {
+				close(ch)
+				delete(cmdDone, "closed|"+hlib.KVStr(e, "c"))
+			}
+			sinkMu.Unlock()
 		case "Sent":
 			sinkMu.Lock()
 			if ch, ok := sentTo[hlib.KVInt(e, "k")]; ok {
@@ -268,6 +281,7 @@ func replayPair(pc pairCase, dir string) *pairObs {
 		time.Sleep(2 * time.Millisecond)
 	}
 
+	exitReturned := make(chan struct{})
 	mk := func(op string) *actor {
 		a := &actor{op: op, pos: -1, done: make(chan struct{})}
 		gid := func(point string, key interface{}) string { return point + "|" + fmt.Sprint(key) }
@@ -311,6 +325,18 @@ func replayPair(pc pairCase, dir string) *pairObs {
 					}
 					close(a.done)
 				}()
+			}
+		case "EXIT":
+			a.gates = []string{gid("chan.exit.flag", cname), gid("chan.exit.clientsClosed", cname), gid("chan.flush.afterMem", cname)}
+			// the operation modelled is the channel's Close (flag .. flush); nsqd.Exit itself returns only after
+			// every connection goroutine has ended, i.e. after the other operation was released
+			sinkMu.Lock()
+			w := make(chan struct{})
+			cmdDone["closed|"+cname] = w
+			sinkMu.Unlock()
+			a.launch = func() {
+				go func() { nd.N.Exit(); close(exitReturned) }()
+				go func() { <-w; close(a.done) }()
 			}
 		case "EMPTY":
 			a.gates = []string{gid("empty.afterReset", cname), gid("empty.afterClients", cname)}
@@ -363,6 +389,11 @@ func replayPair(pc pairCase, dir string) *pairObs {
 	for i, x := range pc.Sched {
 		if msg := step(x); msg != "" {
 			obs.Blocked = fmt.Sprintf("step %d (%s): %s", i, x, msg)
+			if os.Getenv("VERIF_DUMP") != "" {
+				buf := make([]byte, 1<<20)
+				buf = buf[:runtime.Stack(buf, true)]
+				os.Stderr.Write(buf)
+			}
 			break
 		}
 	}
@@ -382,6 +413,71 @@ func replayPair(pc pairCase, dir string) *pairObs {
 	}
 	obs.Done = obs.Blocked == ""
 	time.Sleep(30 * time.Millisecond)
+	evmu.Lock()
+	for _, e := range evs {
+		if e.Ev == "FinDone" && hlib.KVStr(e, "id") == m1 {
+			obs.FinM1 = true
+		}
+	}
+	obs.Events = len(evs)
+	evmu.Unlock()
+	if pc.OpA == "EXIT" || pc.OpB == "EXIT" {
+		// graceful shutdown was one of the two operations: restart on the same data path and see what comes back
+		if !obs.Done {
+			return obs
+		}
+		select {
+		case <-exitReturned:
+		case <-time.After(20 * time.Second):
+			obs.Blocked = "nsqd.Exit did not return within 20s after all yield points were released"
+			obs.Done = false
+			return obs
+		}
+		verif.SetGate(nil)
+		c1.close()
+		c2.close()
+		nd2, err := startNode(dir, func(o *nsqd.Options) { o.MemQueueSize = 10 })
+		if err != nil {
+			obs.Incon = "restart: " + err.Error()
+			return obs
+		}
+		defer nd2.stop(20 * time.Second)
+		obs.Restarted = true
+		dc, err := dial(nd2.TCP, "drain")
+		if err != nil {
+			obs.Incon = "restart dial: " + err.Error()
+			return obs
+		}
+		defer dc.close()
+		if _, err := dc.identify(nil); err != nil {
+			obs.Incon = "restart identify: " + err.Error()
+			return obs
+		}
+		if err := dc.sub("t", "c"); err != nil {
+			obs.Incon = "restart sub: " + err.Error()
+			return obs
+		}
+		dc.cmd("RDY", "", "10")
+		idle := 0
+		for idle < 12 {
+			f, ok := dc.next(25 * time.Millisecond)
+			if !ok {
+				idle++
+				continue
+			}
+			idle = 0
+			if f.Type == 2 {
+				switch string(f.Body) {
+				case "m1":
+					obs.BackM1 = true
+				case "m2":
+					obs.BackM2 = true
+				}
+				dc.cmd("FIN", f.ID, "")
+			}
+		}
+		return obs
+	}
 	// ---- observe
 	obs.NIfm, obs.NHeap, _, _, _ = nsqd.VerifChannelSnapshot(ch)
 	if st, _, err := nd.stats(""); err == nil {
@@ -400,14 +496,6 @@ func replayPair(pc pairCase, dir string) *pairObs {
 			}
 		}
 	}
-	evmu.Lock()
-	for _, e := range evs {
-		if e.Ev == "FinDone" && hlib.KVStr(e, "id") == m1 {
-			obs.FinM1 = true
-		}
-	}
-	obs.Events = len(evs)
-	evmu.Unlock()
 	// every message still in flight must have a deadline: force all timeouts and look again
 	c1.cmd("RDY", "", "0")
 	c2.cmd("RDY", "", "0")
